@@ -9,6 +9,9 @@ interpreted from HIR on a model store (chunk size 4, 10 slots, 2 terminals) for 
             the 11th answer is OutOfMemory (and stays so);
   foreign   a thread whose local state belongs to no / another store does the same through the shared state only;
   two       two worker threads alternate (A, B, A, A, B, A, B, B, ...): all ids distinct, 10 successes, then OutOfMemory;
+  sessions  a thread enters the store (`prepare_local_state`), allocates 2 / 4 / 5 nodes, leaves (the guard's drop returns the rest
+            of its chunk and its own list to the shared state), enters again and allocates 12: over both sessions every id is handed
+            out exactly once, the shared node count is exact, then OutOfMemory;
   recycled  with every slot allocated and the shared free list [7] (7 -> 9 -> end): an owner thread gets 7, then 9 from its
             own list, then OutOfMemory; a foreign thread gets 7 (handing the rest of the list back), then 9, then
             OutOfMemory.
@@ -53,6 +56,9 @@ class SlotDomain(tables.DDDomain):
             return a is b
         return super().equal(it, a, b)
 
+    def iterate(self, it, v):
+        return list(v) if isinstance(v, (list, tuple)) else None
+
     def call_value(self, it, fv, args):
         if isinstance(fv, tuple) and fv and fv[0] == "closure":
             _, ce, cenv = fv
@@ -82,6 +88,10 @@ class SlotDomain(tables.DDDomain):
         if n == BASE + "addr" or did == BASE + "addr":
             (p,) = [it.ev(a, env) for a in args_e]
             return p.addr if isinstance(p, Obj) and hasattr(p, "addr") else 0
+        if did.endswith("::drop::return_preallocated") and did in self.F.hir:
+            return it.call_fn(did, [it.ev(a, env) for a in args_e])
+        if n.endswith("IntoIterator::into_iter"):
+            return [it.ev(a, env) for a in args_e][0]
         if n.endswith("ManuallyDrop::<T>::new") or n.endswith("ManuallyDrop::new"):
             return [it.ev(a, env) for a in args_e][0]
         if did.endswith("panicking::panic") or did.endswith("panicking::panic_fmt") or did.endswith("assert_failed"):
@@ -134,6 +144,13 @@ class SlotDomain(tables.DDDomain):
                 return ()
             if nm == "len":
                 return len(recv)
+            if nm in ("iter", "iter_mut", "into_iter"):
+                return list(recv)
+            if nm == "zip":
+                (o,) = it.args(e, env)
+                if isinstance(o, StructVal) and str(o.path).endswith("RangeFrom"):
+                    return [(x, o.fields["start"] + i) for i, x in enumerate(recv)]
+                return list(zip(recv, o))
             if nm in ("get_unchecked", "get_unchecked_mut"):
                 (i,) = it.args(e, env)
                 if not (isinstance(i, int) and 0 <= i < len(recv)):
@@ -243,6 +260,45 @@ def run(ctx, F, rule=RULE):
         if owner:
             loc.initialized.v = 8      # a multiple of the chunk size: the thread's chunk is used up
         sequence("all slots allocated, shared free list 7 -> 9, one %s thread" % ("worker" if owner else "foreign"), store, slots, [loc] * 4, 2, {7, 9})
+    # sessions: a thread enters the store (prepare_local_state), allocates, leaves (guard drop: the rest of its chunk and its own
+    # free list go back to the shared state), enters again: over both sessions every slot is handed out once
+    prep = next((f for f in F.hir if f.startswith(BASE) and f.endswith("::prepare_local_state") and "Store<" in F.nice(f)), None)
+    gdrop = next((f for f, r in F.fns.items() if f.startswith(BASE) and f.endswith("::drop") and f in F.hir
+                  and "LocalStoreStateGuard" in (r.get("impl") or {}).get("self", "")), None)
+    if ctx.anchor(rule, "Store::prepare_local_state / <LocalStoreStateGuard as Drop>::drop", prep is not None and gdrop is not None):
+        for first in (2, 4, 5):
+            n += 1
+            store, shared, slots = new_store(F)
+            loc = new_local(False)
+            label = "two sessions of one thread (%d, then 12 allocations)" % first
+            got = []
+            try:
+                for k_total in (first, 12):
+                    outs = list(enumerate_runs(lambda o: Interp(F, SlotDomain(F, store, loc), o, max_depth=8),
+                                               lambda it: it.call_fn(prep, [store], {"TERMINALS": TERMS})))
+                    if len(outs) != 1 or outs[0][1][0] != "ok" or not (isinstance(outs[0][1][1], Enum) and outs[0][1][1].path == SOME):
+                        raise Unrecognised("prepare_local_state yields %r" % (outs[0][1] if outs else None,))
+                    guard = outs[0][1][1].args[0]
+                    for k in range(k_total):
+                        i, node = alloc(store, loc, k)
+                        got.append(i)
+                        if i is not None and slots[i - TERMS].node is not node:
+                            raise Panic("id %d does not hold its node" % i)
+                    outs = list(enumerate_runs(lambda o: Interp(F, SlotDomain(F, store, loc), o, max_depth=8),
+                                               lambda it: it.call_fn(gdrop, [guard], {"TERMINALS": TERMS})))
+                    if len(outs) != 1 or outs[0][1][0] != "ok":
+                        raise Unrecognised("guard drop yields %r" % (outs[0][1] if outs else None,))
+                    if loc.current_store.v != 0:
+                        raise Panic("the thread's state still belongs to the store after the session")
+                oks = [g for g in got if g is not None]
+                if len(set(oks)) != len(oks) or set(oks) != full or any(g is None for g in got[:10]) or any(g is not None for g in got[10:]):
+                    fails.append("%s: answers %r, expected every id of %r exactly once over both sessions, then OutOfMemory" % (label, got, sorted(full)))
+                elif shared.node_count != 10:
+                    fails.append("%s: the shared node count is %r after 10 successful allocations" % (label, shared.node_count))
+            except Panic as p_:
+                fails.append("%s: %s (answers so far %r)" % (label, p_.msg, got))
+            except Unrecognised as u:
+                fails.append("%s: not interpretable: %s" % (label, u))
     ctx.ob(rule, rule, not fails, "slot allocation of the index-based store (%s): %s" % (F.where(fns["add_node"]), " || ".join(fails[:3]) if fails else
            "every slot is handed out once (own list, own chunk, shared lists, fresh chunk, single slots), then OutOfMemory"))
     return n
